@@ -1,4 +1,5 @@
 import Unsized.MachineObserve
+import Unsized.PtrChainNotify
 /-!
 # C01 — Unsized values behave like their owned models under any operation history
 
@@ -144,5 +145,63 @@ example : CmdOk exS ⟨exV, [[]]⟩ (load exS exV).mem.orig (.op [.field 1, .ele
 example : resolve exS (subst exS exV [.field 1, .elem 0, .field 0] (.seq [[1], [9]])) [.field 1, .elem 0, .field 1]
     = resolve exS exV [.field 1, .elem 0, .field 1] :=
   siblings_untouched exS exV [.field 1, .elem 0] [] [] (.field 1) (.field 0) _ (by decide)
+
+
+/-! ## Stage C — pointer freshness (`ptrs_fresh`)
+
+The pointer objects (`T::Ptr`: `Unsized/PtrTree.lean`, the C03 builder's transcription of `get_ptr`,
+`resize_notification`, `check_pointers`) of the live accessors, which the byte machine above does not carry. -/
+
+open Unsized.PtrT Unsized.Ptr in
+/-- **`ptrs_fresh`** — one `resize_notification` broadcast keeps every live accessor's pointer fresh.
+
+The sub-value at path `p` of the good value `v` (serialized at address `b`) changes its size by `±amt`
+(`encode t u` ↦ `encode t u'`, already moved in place: the bytes are `pre ++ splice … ++ post`, the enclosing
+`UnsizedList` headers still stale — that is what `unsized_size` is read from). The top pointer object is
+`chainOf s v b p`: the tree after the accessors along `p` were taken from a fresh borrow (every enclosing
+`UnsizedListPtr` caches its element's pointer in `inner_exclusive`, D1/D1b). If the deepest accessor's own
+pointer ends up as `get_ptr` of its new bytes (`hself`: `Ptr.self_notify_leaf/_ulist/_umap` say when the
+notification alone achieves it; `set_data_inner` re-parses it), then after the broadcast
+
+1. the top pointer object is `chainOf s v' b p` — what taking the same accessors on the NEW value
+   `v' = subst s v p u'` gives (siblings before the change keep their address, siblings after are shifted,
+   list ranges follow the new size, every cached inner pointer is recursively the fresh one);
+2. forgetting the cached boxes, that object is `treeOf s v' b`, and
+3. `treeOf s v' b` is literally what `get_ptr` returns on the new canonical bytes. -/
+theorem ptrs_fresh (p : List Step) (s : Shape) (v : Val) (t : Shape) (u u' : Val) (g : Good s v)
+    (hu : s ≠ .unit) (hz : s.zst = false) (g' : Good s (subst s v p u')) (h : resolve s v p = .ok (t, u))
+    (pre post : List Nat) (b src : Nat) (neg : Bool) (amt : Nat)
+    (hb : b = pre.length) (hX : (encode t u').length = applyDelta neg amt (encode t u).length)
+    (hneg : neg = true → amt ≤ (encode t u).length) (hsrc : src = b + offsetOf s v p)
+    (hlim : b + (encode s v).length + amt < Shape.usizeLim)
+    (usz : Nat → Nat)
+    (husz : usz = (fun a => rd32 (pre ++ splice (encode s v) (offsetOf s v p) (encode t u).length (encode t u') ++ post) a))
+    (hself : resizeNotify usz src neg amt (treeOf t u src) = some (treeOf t u' src)) :
+    resizeNotify usz src neg amt (chainOf s v b p) = some (chainOf s (subst s v p u') b p)
+    ∧ forget (chainOf s (subst s v p u') b p) = treeOf s (subst s v p u') b
+    ∧ getPtr s (encode s (subst s v p u') ++ post) b
+        = .ok (treeOf s (subst s v p u') b, size s (subst s v p u')) := by
+  refine ⟨Ptr.ptrs_fresh p s v t u u' g hu hz g' h pre post b src neg amt hb hX hneg hsrc hlim usz husz hself,
+    ?_, getPtr_encode s _ post b g' (Or.inr hz)⟩
+  have hr := resolve_subst p s v t u u' h
+  unfold chainOf
+  rw [hr]
+  exact forget_chain p s _ t u' b _ g' hr (forget_treeOf t u' _)
+
+/-- `ptrs_fresh` is not vacuous: the push at depth 3 of the example (struct → `UnsizedList` → struct →
+list) with two enclosing accessors live, the account data at address 64. -/
+example :
+    let p : List Step := [.field 1, .elem 0, .field 0]
+    let usz : Nat → Nat := fun a => rd32 (List.replicate 64 0
+      ++ splice (encode exS exV) (offsetOf exS exV p) 2 (encode (.list (.pod 1) 1) (.seq [[1], [9]])) ++ []) a
+    PtrT.resizeNotify usz (64 + offsetOf exS exV p) false 1 (Ptr.chainOf exS exV 64 p)
+      = some (Ptr.chainOf exS (subst exS exV p (.seq [[1], [9]])) 64 p) := by
+  intro p usz
+  have g : Good exS exV := ⟨⟨true, false, by decide⟩, by decide +kernel, by decide +kernel⟩
+  have g' : Good exS (subst exS exV p (.seq [[1], [9]])) :=
+    ⟨⟨true, false, by decide⟩, by decide +kernel, by decide +kernel⟩
+  exact (ptrs_fresh p exS exV (.list (.pod 1) 1) (.seq [[1]]) (.seq [[1], [9]]) g (by intro h; cases h) (by decide)
+    g' rfl (List.replicate 64 0) [] 64 _ false 1 (by simp) (by decide +kernel) (by intro h; cases h) rfl
+    (by decide +kernel) usz rfl (Ptr.self_notify_leaf _ _ _ _ _ _ _ rfl)).1
 
 end Unsized.C01
